@@ -59,6 +59,8 @@ type Step struct {
 	Fake int `json:"fake"`
 	// rounds of a mesh phase
 	Rounds int `json:"rounds"`
+	// validators that stay silent while a height is played to the end (decide)
+	Silent []int `json:"silent"`
 }
 
 // Scenario is a complete script.
@@ -557,6 +559,8 @@ func (r *run) step(s Step) error {
 		p.sendGetData(payload.ExtensibleType, []util.Uint256{h})
 	case "fetchblk":
 		return r.fetchBlock(s)
+	case "decide":
+		return r.decide(s)
 	case "gate":
 		// the next time the service asks for transactions, peer P pushes T and the node pools them BEFORE the server's
 		// RequestTx runs (an interleaving of the service's goroutine with a peer's reader, forced through the callback the
